@@ -11,6 +11,7 @@ def bcSwap (a1 a2 : String) (c : Char) : Char :=
   if [c] = a1.toList then a2.toList.headD c else if [c] = a2.toList then a1.toList.headD c else c
 def bcTurns (bc a1 a2 : String) (k : Int) : Bool :=
   isOdd k && !(bc == "neumann" || bc == "dirichlet" || bc == "") && a1.length == 1 && a2.length == 1
+    && a1 == a1.toLower && a2 == a2.toLower
 theorem rotBc_eq (bc a1 a2 : String) (k : Int) :
     rotBc bc a1 a2 k = if bcTurns bc a1 a2 k then String.ofList (bc.toList.map (bcSwap a1 a2)) else bc := rfl
 theorem plainBc_iff (bc : String) : (bc == "neumann" || bc == "dirichlet" || bc == "") = true ↔ PlainBc bc := by
@@ -133,13 +134,14 @@ theorem isOdd_add' (k l : Int) : isOdd (k + l) = xor (isOdd k) (isOdd l) := by
      simp [hk, hl, this])
 
 theorem bcTurns_iff (bc a1 a2 : String) (k : Int) :
-    bcTurns bc a1 a2 k = true ↔ isOdd k = true ∧ ¬ PlainBc bc ∧ a1.length = 1 ∧ a2.length = 1 := by
+    bcTurns bc a1 a2 k = true ↔ isOdd k = true ∧ ¬ PlainBc bc ∧ a1.length = 1 ∧ a2.length = 1
+      ∧ a1.toLower = a1 ∧ a2.toLower = a2 := by
   unfold bcTurns
-  rw [Bool.and_eq_true, Bool.and_eq_true, Bool.and_eq_true, Bool.not_eq_true', beq_iff_eq, beq_iff_eq,
-    ← Bool.not_eq_true, plainBc_iff]
+  rw [Bool.and_eq_true, Bool.and_eq_true, Bool.and_eq_true, Bool.and_eq_true, Bool.and_eq_true, Bool.not_eq_true',
+    beq_iff_eq, beq_iff_eq, beq_iff_eq, beq_iff_eq, ← Bool.not_eq_true, plainBc_iff]
   constructor
-  · rintro ⟨⟨⟨a, b⟩, c⟩, d⟩; exact ⟨a, b, c, d⟩
-  · rintro ⟨a, b, c, d⟩; exact ⟨⟨⟨a, b⟩, c⟩, d⟩
+  · rintro ⟨⟨⟨⟨⟨a, b⟩, c⟩, d⟩, e⟩, f⟩; exact ⟨a, b, c, d, e.symm, f.symm⟩
+  · rintro ⟨a, b, c, d, e, f⟩; exact ⟨⟨⟨⟨⟨a, b⟩, c⟩, d⟩, e.symm⟩, f.symm⟩
 
 /-- even `k`: `bc` is left alone -/
 theorem rotBc_even (bc a1 a2 : String) (k : Int) (hk : isOdd k = false) : rotBc bc a1 a2 k = bc := by
@@ -149,29 +151,30 @@ theorem rotBc_even (bc a1 a2 : String) (k : Int) (hk : isOdd k = false) : rotBc 
 /-- an axis with a multi-character (or empty) name: `bc` is left alone, whatever `k` -/
 theorem rotBc_multichar (bc a1 a2 : String) (k : Int) (h : a1.length ≠ 1 ∨ a2.length ≠ 1) : rotBc bc a1 a2 k = bc := by
   rw [rotBc_eq, if_neg]
-  rw [bcTurns_iff]; rintro ⟨_, _, h1, h2⟩
+  rw [bcTurns_iff]; rintro ⟨_, _, h1, h2, _⟩
   rcases h with h | h
   · exact h h1
   · exact h h2
 
 /-- odd `k`, periodic `bc`, single-character names: the letters are swapped -/
-theorem rotBc_odd (bc a1 a2 : String) (k : Int) (hk : isOdd k = true) (hp : ¬ PlainBc bc) (h1 : a1.length = 1) (h2 : a2.length = 1) :
+theorem rotBc_odd (bc a1 a2 : String) (k : Int) (hk : isOdd k = true) (hp : ¬ PlainBc bc) (h1 : a1.length = 1) (h2 : a2.length = 1)
+    (l1 : a1.toLower = a1) (l2 : a2.toLower = a2) :
     rotBc bc a1 a2 k = String.ofList (bc.toList.map (bcSwap a1 a2)) := by
   rw [rotBc_eq, if_pos]
-  rw [bcTurns_iff]; exact ⟨hk, hp, h1, h2⟩
+  rw [bcTurns_iff]; exact ⟨hk, hp, h1, h2, l1, l2⟩
 
 /-- the turned `bc` is periodic iff `bc` is (letters distinct) -/
 theorem rotBc_plain_iff (bc a1 a2 : String) (k : Int) (hd : PlainBc bc ∨ Distinct bc.toList) :
     PlainBc (rotBc bc a1 a2 k) ↔ PlainBc bc := by
   by_cases ht : bcTurns bc a1 a2 k = true
-  · obtain ⟨hk, hp, s1, s2⟩ := (bcTurns_iff _ _ _ _).mp ht
+  · obtain ⟨hk, hp, s1, s2, lo1, lo2⟩ := (bcTurns_iff _ _ _ _).mp ht
     obtain ⟨x, hx⟩ := single_of_length a1 s1
     obtain ⟨y, hy⟩ := single_of_length a2 s2
     have hdist : Distinct bc.toList := by
       rcases hd with h | h
       · exact absurd h hp
       · exact h
-    rw [rotBc_odd bc a1 a2 k hk hp s1 s2]
+    rw [rotBc_odd bc a1 a2 k hk hp s1 s2 lo1 lo2]
     constructor
     · intro h
       exfalso
@@ -191,10 +194,10 @@ the two axis names are dimension names -/
 theorem rotBc_bcOk (dims : List String) (bc a1 a2 : String) (k : Int) (hok : Mesh.bcOk dims bc = true)
     (m1 : a1 ∈ dims) (m2 : a2 ∈ dims) : Mesh.bcOk dims (rotBc bc a1 a2 k) = true := by
   by_cases ht : bcTurns bc a1 a2 k = true
-  · obtain ⟨hk, hp, s1, s2⟩ := (bcTurns_iff _ _ _ _).mp ht
+  · obtain ⟨hk, hp, s1, s2, lo1, lo2⟩ := (bcTurns_iff _ _ _ _).mp ht
     obtain ⟨x, hx⟩ := single_of_length a1 s1
     obtain ⟨y, hy⟩ := single_of_length a2 s2
-    rw [rotBc_odd bc a1 a2 k hk hp s1 s2, bcOk_iff]
+    rw [rotBc_odd bc a1 a2 k hk hp s1 s2 lo1 lo2, bcOk_iff]
     right
     rw [bcOk_iff] at hok
     rcases hok with h | ⟨hin, hdist⟩
@@ -232,11 +235,11 @@ theorem rotBc_compose (bc a1 a2 : String) (k l : Int) (hd : PlainBc bc ∨ Disti
       rw [this]
     · rw [rotBc_even bc a1 a2 (k + l) (by rw [hadd, hk, hl]; rfl)]
       by_cases ht : bcTurns bc a1 a2 k = true
-      · obtain ⟨_, hp, s1, s2⟩ := (bcTurns_iff _ _ _ _).mp ht
+      · obtain ⟨_, hp, s1, s2, lo1, lo2⟩ := (bcTurns_iff _ _ _ _).mp ht
         obtain ⟨x, hx⟩ := single_of_length a1 s1
         obtain ⟨y, hy⟩ := single_of_length a2 s2
         have hp' : ¬ PlainBc (rotBc bc a1 a2 k) := by rw [rotBc_plain_iff bc a1 a2 k hd]; exact hp
-        rw [rotBc_odd _ a1 a2 l hl hp' s1 s2, rotBc_odd bc a1 a2 k hk hp s1 s2, String.toList_ofList,
+        rw [rotBc_odd _ a1 a2 l hl hp' s1 s2 lo1 lo2, rotBc_odd bc a1 a2 k hk hp s1 s2 lo1 lo2, String.toList_ofList,
           map_bcSwap_invol a1 a2 x y hx hy, String.ofList_toList]
       · have e : rotBc bc a1 a2 k = bc := by rw [rotBc_eq, if_neg ht]
         rw [e]
@@ -273,10 +276,10 @@ theorem rotBc_lower (bc a1 a2 : String) (k : Int) (hl : bc.toLower = bc)
     (l1 : a1.length = 1 → a1.toLower = a1) (l2 : a2.length = 1 → a2.toLower = a2) :
     (rotBc bc a1 a2 k).toLower = rotBc bc a1 a2 k := by
   by_cases ht : bcTurns bc a1 a2 k = true
-  · obtain ⟨hk, hp, s1, s2⟩ := (bcTurns_iff _ _ _ _).mp ht
+  · obtain ⟨hk, hp, s1, s2, lo1, lo2⟩ := (bcTurns_iff _ _ _ _).mp ht
     obtain ⟨x, hx⟩ := single_of_length a1 s1
     obtain ⟨y, hy⟩ := single_of_length a2 s2
-    rw [rotBc_odd bc a1 a2 k hk hp s1 s2, lower_iff, String.toList_ofList]
+    rw [rotBc_odd bc a1 a2 k hk hp s1 s2 lo1 lo2, lower_iff, String.toList_ofList]
     intro c' hc'
     obtain ⟨c, hc, rfl⟩ := List.mem_map.mp hc'
     have hx' := (lower_iff a1).mp (l1 s1) x (by rw [hx]; simp)
